@@ -54,6 +54,12 @@ CHECKS = {
             "coincide; definitions are found by name) - partial: that the loader mirror maps permuted item lists to equivalent models is "
             "checked by execution - + direct: == , bytes of numpy/C/jax code and layouts for permuted blocks / entries / lines.",
             "Gallina model with permutation-invariance theorems + metamorphic execution on permuted texts"),
+    "C13": ("Theorems (missing variables = names used but not defined; the halves of a split contain every state, a state in both "
+            "halves is declared in two components; a sub-model fed the full model's values reproduces every quantity, for every carrier; "
+            "validated missing_values writes the requested names) + correspondence: Load.to_ode / Load.minus vs to_ode() / __sub__ "
+            "(layouts, missing variables), validators on the halves' functions; direct: both halves of every component split, "
+            "remove_unused off/on, fed from the full model, compared by name (rhs, monitored values, Euler, generalized RL, missing_values).",
+            "Gallina model of the split + transfer theorem + differential execution of both halves"),
 }
 
 def main():
